@@ -899,3 +899,31 @@ def c15_cases(tables):
             continue
         cases.append({"id": t["tid"], "kind": "agree", "fmts": fmts, "lines": lines})
     return cases
+
+
+# ----------------------------------------------------------------------------- emitter self-check
+
+_PDB_FIELDS = ("m", "het", "ch", "num", "ic", "rn", "an", "alt", "occ", "x", "y", "z")
+_CIF_FIELDS = _PDB_FIELDS + ("lch", "lnum", "lrn")
+
+
+def check_emitters(tables):
+    """Machinery guard: what the emitters write is read back field by field by the harness's own
+    tokenizers (which share no code with the emitters or with the readers under test)."""
+    n = 0
+    for t in tables:
+        lines = t["lines"]
+        if pdb_representable(lines):
+            back = tokenize_pdb(emit_pdb(lines))
+            if [[ln[k] for k in _PDB_FIELDS] for ln in lines] != [[ln[k] for k in _PDB_FIELDS] for ln in back]:
+                raise lib.MachineryError(f"PDB emitter/tokenizer disagree on table {t['tid']}")
+            n += 1
+        if cif_representable(lines):
+            back = tokenize_cif(emit_cif(lines))
+            want = [[ln[k] for k in _CIF_FIELDS] + [ln["icn"] if not ln["ic"] else "?", ln["ocn"] if ln["occ"] < 0 else "?"]
+                    for ln in lines]
+            got = [[ln[k] for k in _CIF_FIELDS] + [ln["icn"], ln["ocn"]] for ln in back]
+            if want != got:
+                raise lib.MachineryError(f"mmCIF emitter/tokenizer disagree on table {t['tid']}")
+            n += 1
+    return n
